@@ -431,6 +431,9 @@ def check(run):
     import p09 as _p09
     _p09.reentrancy_rule(run)
     ack_every_segment_rule(run)
+    run.clause('a connect waiting in the accept queue completes when an accept is outstanding: a connector that gives up takes ITS OWN entry out of the queue (found by its channel), not the entry of a live connection ahead of it (shared with C07/C04/C16)')
+    import p07 as _p07b
+    _p07b.abandoned_connect_rules(run)
     run.floor('R10', 5)
     run.floor('R9', 3)
 
